@@ -101,8 +101,14 @@ def evaluate(sdir, checks, tier="quick"):
         print("apply failed", o)
         return 2
     results = {}
+    saved_evidence = {}
     try:
         for c in checks:
+            # evidence committed in /verif must come from runs against /repo itself: keep the
+            # file of the unchanged tree aside while the changed tree is being checked
+            ev = os.path.join(VERIF, "evidence", c + ".json")
+            if os.path.exists(ev):
+                saved_evidence[ev] = open(ev, "rb").read()
             t0 = time.time()
             rc, o = sh(["./check", c, tier], cwd=VERIF, timeout=7200)
             viol = [l for l in o.splitlines() if l.startswith("VIOLATION")]
@@ -113,6 +119,8 @@ def evaluate(sdir, checks, tier="quick"):
                           "inconclusive": [l[:300] for l in o.splitlines() if l.startswith("INCONCLUSIVE")][:3]}
             print(os.path.basename(sdir), c, tier, "exit", rc, viol[:2], sigs[:2])
     finally:
+        for ev, data in saved_evidence.items():
+            open(ev, "wb").write(data)
         sh(["git", "apply", "-R", patch], cwd="/repo")
         sh("git checkout -- .", cwd="/repo")
         if not repo_clean():
